@@ -340,8 +340,14 @@ void alloc_check(const void* addr, size_t size) {
   uint8_t s0 = shadow[(a - ARENA_BASE) >> 3], s1 = shadow[(a + size - 1 - ARENA_BASE) >> 3];
   if (s0 == SH_VALID && s1 == SH_VALID) return;
   uint8_t s = s0 != SH_VALID ? s0 : s1;
-  if (s == SH_FREED)
-    sim_violation("MEM-use-after-free", "access of %zu bytes at %p inside a freed block", size, addr);
+  if (s == SH_FREED) {
+    /* find the block: walk back over freed granules to the red zone that precedes it */
+    uint64_t g = (a - ARENA_BASE) >> 3;
+    while (g > 0 && shadow[g - 1] == SH_FREED) g--;
+    ahdr_t* h = (ahdr_t*)(arena + (g << 3)) - 1;
+    sim_violation("MEM-use-after-free", "access of %zu bytes at offset %lu of a freed block of %lu bytes (%p)", size, (unsigned long)(a - ARENA_BASE - (g << 3)),
+                  (unsigned long)h->size, addr);
+  }
   else if (s == SH_RZ)
     sim_violation("MEM-out-of-bounds", "access of %zu bytes at %p in a red zone", size, addr);
   else
@@ -684,8 +690,10 @@ void sim_access(const void* addr, size_t size, int kind) {
   sim_sched_point(kind);
 }
 /* cpu_relax() hook: the caller is spinning; somebody else must run */
+void (*sim_hook_spin)(void);
 void fiber_verif_spin_hint(void) {
   if (!sim_active || me < 0) return;
+  if (sim_hook_spin) sim_hook_spin();
   account_step(K_SPIN);
   if (preempt_off) return;
   int o = choose_next(1);
